@@ -130,6 +130,15 @@ def program(draw, depth):
             clauses_.append({"cond": {"lit": draw(st.booleans())}, "items": [["def", f"lo{i}", i, False], inner]})
         body = body + [["block", clauses_, ([["def", "lelse", 8, False]] if draw(st.booleans()) else None), draw(st.booleans())],
                        ["def", "lafter", 9, False]]
+    if draw(st.integers(0, 3)) == 0:
+        # a nested block whose condition refers to a node that is defined in the enclosing clause only: when that clause
+        # is not selected the nested condition cannot be evaluated - and need not be; the rest of the text is unaffected
+        v_ = draw(st.integers(0, 2))
+        inner = ["block", [{"cond": {"ref": "loc", "op": draw(st.sampled_from(["==", "!=", "<="])), "rhs": draw(st.integers(0, 2))},
+                            "items": [["def", "lin", 1, False]]}], ([["def", "lelse2", 2, False]] if draw(st.booleans()) else None), True]
+        outer = ["block", [{"cond": {"lit": draw(st.booleans())}, "items": [["def", "loc", v_, False], inner]}],
+                 ([["def", "lother", 3, False]] if draw(st.booleans()) else None), draw(st.booleans())]
+        body = body + [outer, ["def", "locafter", 4, False]]
     stray = draw(st.sampled_from([None] * 9 + ["else_end", "end_end", "else_start", "end_start", "else_after_closed",
                                                "else_in_clause", "else_in_group", "else_deeper_after_node",
                                                "else_in_unselected_clause", "second_end_in_unselected_clause",
@@ -283,6 +292,8 @@ def truth(c, model):
         return False
     if "lit" in c:
         return c["lit"]
+    if c["ref"] not in model:
+        return False            # the referenced node lives in a clause that is not selected: so is this one
     a, b = model[c["ref"]], c["rhs"]
     return {"==": a == b, "!=": a != b, "<": a < b, ">=": a >= b, "<=": a <= b}[c["op"]]
 
